@@ -653,6 +653,7 @@ def r3_reorder(ctx):
                 S = Run(ctx, fn, inline=inl, consts=consts, run=False)
                 S.truth("drm", drm)
                 S.truth("last", last)
+                S.sign("M.ndim - 2", "zero")          # M is a matrix (documented): M[..., pv] is M[:, pv]
                 _sign_len(S, "np.size(M, 1) - {n}", "b", "zero" if lq0 else "pos")
                 S.go()
                 r = S.ret()
